@@ -3,7 +3,7 @@
 import json, subprocess
 
 HOOK_COMMITS = ["87ef81a", "e38926a"]
-FIX_COMMITS = ["5be8c90", "47e4ff7", "7177454", "0497b13", "b9b128e", "7b0b11e", "20cde3f", "58dba13", "6809fe1"]
+FIX_COMMITS = ["5be8c90", "47e4ff7", "7177454", "0497b13", "b9b128e", "7b0b11e", "20cde3f", "58dba13", "6809fe1", "4e4e028"]
 
 # id -> (technique, level text, level note, design ref)
 CLAIMED = {
@@ -71,6 +71,12 @@ CLAIMED.update({
  "C16": ("property-based conformance testing: everything the endpoint emits in generated scenarios is recorded by a raw peer and decoded by the independent reference codec (wire::validate)",
          "Exploration: control stream / SETTINGS content, request and response field sections (prefix, representations, pseudo-header rules), WT stream preambles, datagram prefixes, close code/reason, ALPN; both roles, session ids 0 and 256.",
          "Trusts refcodec and wire::validate.", "DESIGN.md §5 C16"),
+})
+
+CLAIMED.update({
+ "C05": ("metamorphic property-based testing with a raw peer: the target control-plane frame is cut at generated / enumerated positions with generated events injected between the pieces; outcome compared with the uncut twin; hook counters label whether the hazard window was really opened",
+         "Exploration: SETTINGS, GREASE, request/response HEADERS, close capsule and unknown capsule targets x cut positions x {datagram, foreign datagram, WT uni, GREASE uni, WT bidi, QPACK bytes} events, both roles, three runtime flavours; the cut table enumerates single cut positions (every position in the thorough tier).",
+         "Segmentation is realised by write + wait-for-ack + settle delay; whether the pieces really arrived separately is measured by the hook counters and used for labelling only.", "DESIGN.md §5 C05"),
 })
 
 E2E_PENDING = {
